@@ -21,7 +21,7 @@ PROPS = {
         not_decided=[],
     ),
     "C08": dict(
-        units=["T1"],
+        units=["T1", "G5a", "G4"],
         level="proof",
         level_text="Claimed for the band-arithmetic and tiling clauses only: the band-count functions are total and in range for all "
                    "u32 sizes, and (G5a) the split arithmetic yields an exact tiling for every part count, so no unwrap in the "
@@ -61,11 +61,12 @@ PROPS = {
     "C15": dict(
         units=["G6"],
         level="proof",
-        level_text="Positivity, finiteness, full extent in one dimension and the centering identity are postconditions discharged for all "
-                   "sizes 1..65535 and all non-NaN centerings (loop-free Kani). The in-bounds and aspect clauses are discharged only for "
-                   "sizes <= 255 (bounded, labelled) in the quick tier; the full-range versions run in the thorough tier.",
+        level_text="Positivity, finiteness and full extent in one dimension are postconditions discharged for all sizes 1..65535 and all "
+                   "non-NaN centerings (loop-free Kani). The in-bounds, aspect and centering clauses depend on division-times-multiplication "
+                   "rounding that SAT does not settle; they are evaluated on a grid of 20480 concrete (sizes, centering) combinations "
+                   "(bounded, labelled); the full-range versions run in the thorough tier.",
         level_note="Trusted: Kani/CBMC IEEE-754 f64 model.",
-        not_decided=["in-bounds and aspect clauses for sizes 256..65535 unless the thorough-tier harnesses finish"],
+        not_decided=["in-bounds, aspect and centering clauses outside the evaluated grid unless the thorough-tier harnesses finish"],
     ),
     "C12": dict(
         units=["P"],
@@ -78,6 +79,7 @@ PROPS = {
     ),
     "C03": dict(
         units=["G1", "G2", "G3", "G4", "G7", "K1", "K2", "K5", "K6", "K7", "A3", "T1", "G5a", "P"],
+        quick_skip=[r"^g5b_", r"^c12_copy_(1x3|3x2|3x3)$", r"^g3_typed_(ref_)?from_buffer_(u8x3|u16x2)$", r"^g8_temp_image_(u16x2|zero)$", r"^k7_u16x1", r"^k8_plan"],
         level="proof",
         level_text="C03 is decided as the conjunction of the safety obligations of the units under contract: arithmetic overflow, division "
                    "by zero, array bounds, unwrap, pointer validity of every unchecked access are obligations generated by Verus / CBMC for "
@@ -86,5 +88,84 @@ PROPS = {
         level_note="Scope: the functions under contract only (N5). SIMD kernels, NEON/WASM, rayon glue and the image-crate integration are not examined.",
         not_decided=["whole-repository panic freedom (only the listed units)", "SIMD convolution kernels (outside C02's reach)", "NEON / WASM back-ends",
                      "rayon scheduling", "sizes beyond the bounded harnesses for the pipeline glue"],
+    ),
+    "C01": dict(
+        units=["W", "K4", "K6", "K7", "L1", "P"],
+        level="model_checking",
+        level_text="Bounded in geometry: every weight of the real precompute_coefficients equals an oracle written from the statement "
+                   "(centre mapping, documented kernel and support, normalisation) within 1e-12 on enumerated 1-D geometries for the four "
+                   "polynomial filters; Normalizer16::new quantises as round(w*2^p) (one symbolic window); the native kernels compute the "
+                   "round-half-up fixed-point formula (concrete taps x all pixels, all taps x concrete pixels); pass planning is observed "
+                   "through the requested tables. The composed error bound is a four-line derivation over these contracts, not one theorem.",
+        level_note="Trusted: Kani/CBMC float model. Lanczos3/Hamming/Gaussian VALUES are not decided (sin/cos/exp have no model); they share "
+                   "all code except their fn(f64)->f64 and their get_filter_func entry with the four filters that are checked.",
+        not_decided=["values of Lanczos3, Hamming, Gaussian weights (N1)", "geometries beyond the enumerated ones", "u8x2/u8x3/u16x2..4/i32/f32 native kernels and all SIMD kernels",
+                     "kernel == formula when taps AND pixels are symbolic together (SAT does not finish)"],
+    ),
+    "C10": dict(
+        units=["L1", "W", "K7", "K4"],
+        level="model_checking",
+        level_text="The conditional lemma (taps summing to 2^p + e with |e|*max < 2^(p-1) reproduce every uniform value exactly, any window "
+                   "length) is PROVED by Verus over the fixed-point formula. Its premise is established on the real taps only for enumerated "
+                   "windows of the four polynomial filters, and the tie kernel == formula is bounded, hence model_checking.",
+        level_note="Lanczos3/Hamming/Gaussian windows and kernel lengths in the thousands: premise not established (N1, N3).",
+        not_decided=["premise for Lanczos3 / Hamming / Gaussian", "premise for geometries beyond the enumerated ones", "float formats", "SIMD back-ends"],
+    ),
+    "C18": dict(
+        units=["L1", "W", "K7"],
+        level="model_checking",
+        level_text="Order preservation and no-overshoot for non-negative taps are PROVED by Verus over the fixed-point formula for any window "
+                   "length; Box and Bilinear are proved non-negative for every f64. The tie kernel == formula and the partition premise "
+                   "are bounded.",
+        level_note="Hamming / Gaussian non-negativity is a statement about sin/cos/exp (N1) and is assumed.",
+        not_decided=["non-negativity of Hamming and Gaussian (N1)", "float formats (one ulp)", "two-pass composition beyond the per-pass lemma", "SIMD back-ends"],
+    ),
+    "C16": dict(
+        units=["M3", "M1"],
+        level="proof",
+        level_text="Scope stated: the table-element contract (entry == round(f(i/(SIZE-1))*max), monotone f => monotone table, f(0)=0 and "
+                   "f(1)=1 => endpoints fixed) is discharged for an ARBITRARY transfer function value by loop-free Kani harnesses on the "
+                   "verbatim slice of MappingTable::new; alpha is depth-converted (M1, complete) and never looked up (rows, bounded).",
+        level_note="That srgb/gamma curves are monotone with fixed endpoints, the table VALUES and the 8->16->8 round trip are statements about "
+                   "libm powf: not decided (N1), listed as assumptions.",
+        not_decided=["powf-based transfer functions are monotone with f(0)=0, f(1)=1 (N1)", "table values of the sRGB / gamma mappers", "8-bit sRGB -> 16-bit linear -> 8-bit round trip",
+                     ],
+    ),
+    "C05": dict(
+        units=["G4", "K7", "P", "A6", "M1", "M3"],
+        level="model_checking",
+        level_text="Frame conditions checked bounded: every container hands out exactly its width x height rectangle by address (G4); kernels, "
+                   "copy, nearest, alpha ops, component conversion and mapping write the destination rows only (spare pixel / surroundings of "
+                   "a cropped view unchanged, source unchanged, rejected calls write nothing), and results do not depend on stale content.",
+        level_note="Bounded image sizes; portable back-end; no threads.",
+        not_decided=["thread counts (N2)", "sizes beyond the bounds", "SIMD back-ends", "two-pass convolution into a cropped view (Form-M two-pass harnesses exceed the time box)"],
+    ),
+    "C07": dict(
+        units=["A1", "A3", "A6", "K7", "L1"],
+        level="model_checking",
+        level_text="Complete facts: f(c,0)=0 and f(c,M)=c for multiply, a=0 -> 0 and a=M identity for divide (Verus, all pairs). Bounded glue: "
+                   "sources differing only under alpha=0 premultiply to identical images (so everything downstream is identical), alpha is "
+                   "convolved as a plain channel with the same taps (K7 U8x4), opaque alpha stays at max (C10 lemma).",
+        level_note="The end-to-end statement is a composition of these contracts (DESIGN 4/C07), not one machine-checked theorem.",
+        not_decided=["end-to-end resize with alpha as one obligation", "F32 alpha formats", "SIMD alpha paths beyond C02/C06"],
+    ),
+    "C09": dict(
+        units=["P", "K7"],
+        level="model_checking",
+        level_text="Bounded: get_temp_image_from_buffer returns a correctly sized, aligned image for every incoming buffer length, capacity "
+                   "and content and never shrinks the buffer; kernels assign every destination pixel independently of its previous content "
+                   "(stale symbolic destination), so scratch images are fully overwritten before being read.",
+        level_note="The only state a Resizer keeps between calls is three byte buffers; sequences longer than one call add nothing beyond "
+                   "an arbitrary incoming buffer state, which the harness quantifies over (length <= 40 bytes).",
+        not_decided=["buffers longer than 40 bytes / images larger than 2 pixels in the scratch harness", "clone() and reset_internal_buffers() (trivially return to a covered state)"],
+    ),
+    "C13": dict(
+        units=["G4", "P", "A6"],
+        level="model_checking",
+        level_text="Kernels only observe a container through ImageView/ImageViewMut; G4 shows by address that owned, borrowed, cropped and "
+                   "nested-cropped containers expose the same width x height matrix (bounded sizes, symbolic crop), and the nearest / alpha "
+                   "harnesses run through cropped views inside larger parents.",
+        level_note="Parametricity of the generic kernels is a typing argument, not a machine-checked theorem.",
+        not_decided=["dynamic (Image / ImageRef / CroppedImage) vs typed entry point equality as one obligation", "sizes beyond the bounds"],
     ),
 }
